@@ -822,6 +822,14 @@ def _asan_body(case, ctx, skip_vk1_subset=False):
         di, dd = plan.get_a2q_fast(e)
         top = plan._spline_size - 1
         ctx.check(np.all(di >= 0) and np.all(di < top), ("a2q", "index_outside_table"), di=di, size=plan._spline_size)
+        # where the index is clipped (exponent below the first or above the last node) it no longer depends on the
+        # exponent: the returned derivative is exactly zero there, on both sides
+        lowc = e < plan.alphas[0] * (1 - 1e-12)
+        highc = e > plan.alphas[-1] * (1 + 1e-12)
+        ctx.check(np.all(np.isfinite(dd)), ("a2q", "derivative_nonfinite"), dd=dd)
+        ctx.check(bool(np.all(dd[highc] == 0)), ("a2q", "derivative_nonzero_where_clipped", "above"), dd=dd[highc], e=e[highc])
+        if pa["alpha_formula"] == "etb":
+            ctx.check(bool(np.all(dd[lowc] == 0)), ("a2q", "derivative_nonzero_where_clipped", "below"), dd=dd[lowc], e=e[lowc])
         # exponents inside the ladder are not clipped: the dense spline index, mapped back through the plan's own
         # index -> exponent function (the one the table rows were built with, _run_setup), returns the exponent
         t = np.array([0.03, 0.2, 0.45, 0.7, 0.9, 0.97])
@@ -843,7 +851,7 @@ def _asan_body(case, ctx, skip_vk1_subset=False):
                "clipped); cider_coefs_gto_*/cider_coefs_vk1_*/cider_coefs_spline_*/cider_ind_etb/zexp/clip through "
                "get_interpolation_arguments / _get_interpolation_coefficients (local and global) / eval_rho_full / "
                "get_a2q_fast; oracle: buffers pre-filled with NaN are completely overwritten and have the advertised shape, "
-               "spline indices stay inside the table and, for exponents inside the ladder, map back to the exponent through get_q2a (1e-9), feature rows == nfeat; non-trivial = nalpha <= 2 or proc_inds subset "
+               "spline indices stay inside the table, their derivative is exactly zero where the index is clipped (below the first / above the last node) and, for exponents inside the ladder, map back to the exponent through get_q2a (1e-9), feature rows == nfeat; non-trivial = nalpha <= 2 or proc_inds subset "
                "or spline_size != nalpha",
           tolerances={})
 def plans_plain(case, ctx):
